@@ -241,7 +241,12 @@ std::ostream& operator<<(std::ostream& os, const picfileformatheader& h)
   std::ostream::sentry s(os);
   if (s)
     {
-      os << "HEADERSIGNATURE         " << h.HEADERSIGNATURE << "\n";
+      // HEADERSIGNATURE is a fixed-size array with no terminating
+      // NUL, so it cannot be inserted as a C string.
+      os << "HEADERSIGNATURE         "
+	 << std::string(reinterpret_cast<const char*>(h.HEADERSIGNATURE),
+			sizeof(h.HEADERSIGNATURE))
+	 << "\n";
       os << "formatrevision          " << static_cast<unsigned int>(h.formatrevision) << "\n";
       os << "number_of_track         " << static_cast<unsigned int>(h.number_of_track) << "\n";
       os << "number_of_side          " << static_cast<unsigned int>(h.number_of_side) << "\n";
